@@ -169,7 +169,8 @@ func DrawPolicy(t *rapid.T, opt Options) *appencryption.CryptoPolicy {
 		return opt.FixedPolicy(t)
 	}
 	expires := []time.Duration{30 * time.Second, 2 * time.Minute, 10 * time.Minute, time.Hour, 24 * time.Hour, 90 * 24 * time.Hour}
-	intervals := []time.Duration{time.Second, 10 * time.Second, time.Minute, 10 * time.Minute, time.Hour}
+	// 0 = "re-validate cached keys whenever any time has passed"
+	intervals := []time.Duration{0, time.Second, time.Second, 10 * time.Second, 10 * time.Second, time.Minute, time.Minute, 10 * time.Minute, 10 * time.Minute, time.Hour, time.Hour}
 	precisions := []time.Duration{0, time.Second, time.Minute, time.Hour}
 	p := appencryption.NewCryptoPolicy()
 	p.ExpireKeyAfter = rapid.SampledFrom(expires).Draw(t, "expire")
